@@ -284,9 +284,25 @@ func (r *shortReader) Read(p []byte) (int, error) {
 
 // staleRun: a successful read of `first`, then a read of type t for which only j bytes are left.
 func staleRun(t string, w int, fill byte, j int) (val []byte, errset bool) {
+	return staleRunOn("plain", t, w, fill, j)
+}
+
+// staleRunOn: kind selects the reader under the ErrorReader - a plain io.Reader, or one of the standard readers that
+// also implement io.ByteReader, io.WriterTo, io.Seeker ... (helpers may take shortcuts through those interfaces)
+func staleRunOn(kind, t string, w int, fill byte, j int) (val []byte, errset bool) {
 	first := bytes.Repeat([]byte{fill}, w)
 	fresh := bytes.Repeat([]byte{0x01}, j)
-	er := iohelp.NewErrorReader(&shortReader{data: append(append([]byte{}, first...), fresh...)})
+	data := append(append([]byte{}, first...), fresh...)
+	var under io.Reader = &shortReader{data: data}
+	switch kind {
+	case "bytes.Reader":
+		under = bytes.NewReader(data)
+	case "bytes.Buffer":
+		under = bytes.NewBuffer(data)
+	case "bufio.Reader":
+		under = bufio.NewReader(&shortReader{data: data})
+	}
+	er := iohelp.NewErrorReader(under)
 	read := func() []byte {
 		switch t {
 		case "bool":
@@ -502,6 +518,14 @@ func runC20(c *Ctx) (int, error) {
 				b, eb = staleRun(t, wd, 0xEE, j)
 			})
 			put(map[string]interface{}{"ev": "stale", "t": t, "j": j, "a": toInts(a), "b": toInts(b), "errset": ea && eb, "panic": pn})
+			for _, kind := range []string{"bytes.Reader", "bytes.Buffer", "bufio.Reader"} {
+				kind := kind
+				pn := safely(func() {
+					a, ea = staleRunOn(kind, t, wd, 0x11, j)
+					b, eb = staleRunOn(kind, t, wd, 0xEE, j)
+				})
+				put(map[string]interface{}{"ev": "stale", "t": t + " over a " + kind, "j": j, "a": toInts(a), "b": toInts(b), "errset": ea && eb, "panic": pn})
+			}
 		}
 	}
 	// ... and ReadString: an 8-byte value is read first, then a string of declared length n whose body is cut after j bytes
